@@ -1769,4 +1769,50 @@ mod tests {
 #[allow(unused_imports, missing_docs, dead_code, unreachable_pub)]
 pub mod verif {
     use super::*;
+
+    pub fn range_validate(r: &BlockRange) -> Result<()> {
+        r.validate()
+    }
+    pub fn range_len(r: &BlockRange) -> u64 {
+        r.len()
+    }
+    pub fn range_is_adjacent(a: &BlockRange, b: &BlockRange) -> bool {
+        a.is_adjacent(b)
+    }
+    pub fn range_is_overlapping(a: &BlockRange, b: &BlockRange) -> bool {
+        a.is_overlapping(b)
+    }
+    pub fn range_is_left_of(a: &BlockRange, b: &BlockRange) -> bool {
+        a.is_left_of(b)
+    }
+    pub fn range_is_right_of(a: &BlockRange, b: &BlockRange) -> bool {
+        a.is_right_of(b)
+    }
+    pub fn range_headn(r: &BlockRange, limit: u64) -> BlockRange {
+        r.headn(limit)
+    }
+    pub fn range_tailn(r: &BlockRange, limit: u64) -> BlockRange {
+        r.tailn(limit)
+    }
+    pub fn headn(rs: &BlockRanges, limit: u64) -> BlockRanges {
+        rs.headn(limit)
+    }
+    pub fn tailn(rs: &BlockRanges, limit: u64) -> BlockRanges {
+        rs.tailn(limit)
+    }
+    pub fn find_affected_ranges(rs: &BlockRanges, r: &BlockRange) -> Option<(usize, usize)> {
+        rs.find_affected_ranges(r)
+    }
+    pub fn edges(rs: &BlockRanges) -> BlockRanges {
+        rs.edges()
+    }
+    pub fn partitions(rs: &BlockRanges) -> Option<(BlockRanges, u64, BlockRanges)> {
+        rs.partitions()
+    }
+    pub fn left_of(rs: &BlockRanges, height: u64) -> Option<u64> {
+        rs.left_of(height)
+    }
+    pub fn right_of(rs: &BlockRanges, height: u64) -> Option<u64> {
+        rs.right_of(height)
+    }
 }
